@@ -185,6 +185,8 @@ def r5(cx):
     f = cx.f
     from ..core import comparisons
     b = f.body("CommitOracle::publish")
+    from .c04 import oracle_roles
+    MAPF = oracle_roles(f)["map"]
     und = None
     rb = f.body("CommitOracle::rollback")
     # the undo map = the map field both publish writes and rollback reads, other than the conflict map itself
@@ -195,7 +197,7 @@ def r5(cx):
             continue
         o = origin_of_operand(b, c.args[0], through_calls="all")
         fl = o.field_names()
-        if "recent_writes" in fl:
+        if MAPF in fl:
             continue
         cand.append((c, fl))
     cx.floor("undo-map writes in CommitOracle::publish", len(cand), 1)
@@ -205,7 +207,7 @@ def r5(cx):
             if cm.condition_to_reach(c.bb) is None:
                 continue
             sides = [origin_of_operand(b, op, through_calls="all") for op in (cm.lhs, cm.rhs)]
-            old = [s for s in sides if any(x.primary.split("::")[-1] == "insert" and "recent_writes" in origin_of_operand(b, x.args[0], through_calls="all").field_names() for x in s.calls)]
+            old = [s for s in sides if any(x.primary.split("::")[-1] == "insert" and MAPF in origin_of_operand(b, x.args[0], through_calls="all").field_names() for x in s.calls)]
             new = [s for s in sides if s.params and not s.calls or any(x.startswith("Add") or x.startswith("Sub") for x in s.ops)]
             if old and new:
                 ok = True
